@@ -84,7 +84,7 @@ def handle (toks : List String) : Option String :=
       some (if r.1 < n then s!"idx={r.1} cur={r.2}" else s!"idx=oob cur={c}")
     | _, _ => some "bad-op"
   | "c05.seq" :: tgt :: ops =>
-    if !(["f1", "f2", "me", "if"].contains tgt) then some "bad-op" else   -- all mocker kinds share one model
+    if !(["f1", "f2", "me", "if", "v0", "v1", "v2", "vm"].contains tgt) then some "bad-op" else   -- all mocker kinds share one model
     match ops.mapM parseOp with
     | some ops =>
       let obs := runOps none ops
